@@ -316,6 +316,55 @@ Definition mon_C07_unit (x o : sx) : sx :=
     end
   else v_ok.
 
+(* ---- the "aecache" family (C06): recompression together with the cache, clients with different Accept-Encoding ---- *)
+(* case = L [A "aecache"; recomp; A ce; A ct; A cc; A content; L [A ae ...]]   ("-" = no Accept-Encoding header)
+   observation = L [ L [I status; A delivered Content-Encoding; A decoded body; A edge-cache status; I origin requests] ... ] *)
+Definition ae_value (ae : str) : str := if str_eqb ae [45%N] then [] else ae.
+
+(* the encoding requestHandler delivers (proxy.go canTransform + util.GetRecompression, as in Serve.recompress_hdrs) *)
+Definition ae_delivered (recomp : bool) (ae ce ct cc : str) : str :=
+  if recomp && can_transform cc then
+    let '(add, remove) := get_recompression ae ce ct in
+    match add with
+    | CNone => match remove with CGzip => [] | _ => ce end
+    | _ => enc_name add
+    end
+  else ce.
+
+(* the cache keeps one entry per Accept-Encoding value (it is a key header), holding what was delivered to the
+   client that filled it; a later request with the same value is a hit on exactly that *)
+Fixpoint run_ae (recomp : bool) (ce ct cc content : str) (aes : list str) (seen : list (str * str)) : list sx :=
+  match aes with
+  | [] => []
+  | ae :: rest =>
+    match find (fun p => str_eqb (fst p) ae) seen with
+    | Some (_, d) => L [I 200; A d; A content; A (bytes "hit"); I 0] :: run_ae recomp ce ct cc content rest seen
+    | None =>
+      let d := ae_delivered recomp (ae_value ae) ce ct cc in
+      L [I 200; A d; A content; A (bytes "miss"); I 1] :: run_ae recomp ce ct cc content rest ((ae, d) :: seen)
+    end
+  end.
+
+Definition run_aecache (x : sx) : sx :=
+  L (run_ae (sx_bool (sx_nth 1 x)) (sx_str (sx_nth 2 x)) (sx_str (sx_nth 3 x)) (sx_str (sx_nth 4 x)) (sx_str (sx_nth 5 x))
+            (to_strs (sx_nth 6 x)) []).
+
+Fixpoint mon_ae (ce content : str) (aes : list str) (obs : list sx) (i : nat) : sx :=
+  match aes, obs with
+  | ae :: aes', o :: obs' =>
+    let d := sx_str (sx_nth 1 o) in
+    if negb (Z.eqb (sx_int (sx_nth 0 o)) 200) then mon_ae ce content aes' obs' (S i)
+    else if negb (str_eqb (sx_str (sx_nth 2 o)) content)
+    then L [of_bool false; A (bytes "the content the client decodes is not the origin's content"); A []; I (Z.of_nat i)]
+    else if negb (str_eqb d ce || str_eqb d [] || contains (to_lower (ae_value ae)) (to_lower d))
+    then L [of_bool false; A (bytes "the delivered encoding is neither the origin's own nor one the client listed"); A []; I (Z.of_nat i)]
+    else mon_ae ce content aes' obs' (S i)
+  | _, _ => v_ok
+  end.
+
+Definition mon_C06_ae (x o : sx) : sx :=
+  mon_ae (sx_str (sx_nth 2 x)) (sx_str (sx_nth 5 x)) (to_strs (sx_nth 6 x)) (sx_list o) 0.
+
 (* ---- C10 (unit): directives that forbid caching are recognised ---- *)
 Definition kf_C10 (values : list str) : string := "".   (* F20 is repaired (fix: b83a9fe): nothing is excused *)
 
